@@ -98,6 +98,12 @@ Problems(r) ==
    \* the usage line is exactly the one Usage.tla computes from the definition (a line supplied by the program aside)
    usage     |-> IF r.kind = "help" /\ "usage" \in DOMAIN r /\ "usage_token" \notin DOMAIN lvl /\ r.usage # UsageLineS(lvl, r.path, "")
                  THEN UsageLine(lvl, r.path) ELSE "",
+   \* the generated documentation shows the same usage line for every command level (markdown and html carry it
+   \* literally; a line supplied by the program aside)
+   docusage  |-> IF r.kind \in {"markdown", "html"} /\ "usages" \in DOMAIN r
+                 THEN {UsageLineS(LevelAt(DefById(r.def), p), p, "") :
+                         p \in {q \in AllPaths(DefById(r.def)) : "usage_token" \notin DOMAIN LevelAt(DefById(r.def), q)}} \ RangeOf(r.usages)
+                 ELSE {},
    misplaced |-> IF r.kind = "help" /\ "sections" \in DOMAIN r THEN Misplaced(lvl, r) ELSE {},
    order     |-> IF r.kind # "help" THEN TRUE
                  ELSE LET o == r.order  Lt(a, b) == a = 0 \/ b = 0 \/ a < b IN
@@ -106,7 +112,7 @@ Problems(r) ==
 HInit == l = 1 /\ bad = 0 /\ def = DefSeq[1] /\ env = <<>> /\ line = <<>> /\ st = 0
 HNext == /\ l <= Len(Rec)
          /\ LET p == Problems(Rec[l]) IN
-            IF p.missing = {} /\ p.forbidden = {} /\ p.foreign = {} /\ p.order /\ p.usage = "" /\ p.misplaced = {} THEN bad' = bad
+            IF p.missing = {} /\ p.forbidden = {} /\ p.foreign = {} /\ p.order /\ p.usage = "" /\ p.misplaced = {} /\ p.docusage = {} THEN bad' = bad
             ELSE PrintT(<<"REJECT", l, ToJson(p)>>) /\ bad' = bad + 1
          /\ l' = l + 1 /\ UNCHANGED vars
 AllConsumed == IF TLCGet("stats").diameter - 1 = Len(Rec) THEN TRUE
